@@ -140,6 +140,8 @@ type Rec struct {
 	// HTTP: the record's httpVals element (nil = the exporter's template has none). Present in every
 	// record when the process is configured to aggregate it (ElementsVariant bit 4).
 	HTTP *string `json:"http,omitempty"`
+	// PodGen > 0: the node names the Pod at its end "pod-src-<PodGen>" / "pod-dst-<PodGen>"
+	PodGen int `json:"pod_gen,omitempty"`
 }
 
 // Element name tables (order: packet, octet, reversePacket, reverseOctet).
@@ -370,6 +372,14 @@ func RecordElements(f FlowDef, r Rec) []entities.InfoElementWithValue {
 			srcPod, dstPod = "pod-src", "pod-dst"
 		default:
 			srcPod = "pod-src"
+		}
+	}
+	if r.PodGen > 0 {
+		if srcPod != "" {
+			srcPod = fmt.Sprintf("%s-%d", srcPod, r.PodGen)
+		}
+		if dstPod != "" {
+			dstPod = fmt.Sprintf("%s-%d", dstPod, r.PodGen)
 		}
 	}
 	u8("flowType", flowType)
